@@ -3,7 +3,7 @@ import os, re, subprocess, json
 from .runner import V, sh, WORK
 
 ALLOWED_AXIOMS = {"propext", "Classical.choice", "Quot.sound"}
-FORBIDDEN = [r"\bsorry\b", r"\badmit\b", r"^\s*axiom\s", r"native_decide", r"bv_decide", r"implemented_by",
+FORBIDDEN = [r"\bsorry\b", r"(^|[;·(]|\bby\b|<;>|=>)\s*admit\s*($|[;)])", r"^\s*axiom\s", r"native_decide", r"bv_decide", r"implemented_by",
              r"\bunsafe\s", r"maxHeartbeats\s+0\b"]
 
 AUDIT_TMPL = '''import %(module)s
